@@ -200,7 +200,7 @@ def describe(params):
 ORDERS_L1 = [("x", "y", "source", "z"), ("source", "x", "event", "y")]
 KW_POOL_L1 = ["x", "y", "source", "q"]
 ORDERS_L2 = [("x", "source", "y", "event"), ("target", "x", "machine", "y")]
-KW_POOL_L2 = ["x", "y", "source", "q"]
+KW_POOL_L2 = ["x", "source", "machine", "q"]
 
 
 def tasks(tier):
@@ -230,7 +230,7 @@ BOUNDS = {
     "quick": "level 1 (callable_method(f)(*a, **kw)): every legal signature with <= 3 named parameters (<=1 positional-only, <=2 positional-or-keyword, "
     "<=2 keyword-only, optional *args / **kwargs, every default placement, two name assignments mixing user and reserved names), as plain function and bound "
     "method, each path binding all of 0..3 positional arguments x every subset of keywords {x, y, source, q}; level 2 (sm.send end-to-end, sync and async engine): signatures with "
-    "<= 2 named parameters as an `on_go` method, 0..2 positional arguments, keyword subsets of {x, y, source, q}, plus the same signature on the event that an "
+    "<= 2 named parameters as an `on_go` method, 0..2 positional arguments, keyword subsets of {x, source, machine, q} (two of them reserved names), plus the same signature on the event that an "
     "`after='hop'` action forwards to; level 3: every ordered pair out of 12 callables that share one qualified name and differ in parameter kinds, keyword-only names or defaults, bound one after the other.",
     "thorough": "<= 4 named parameters at level 1 also as functools.partial and coroutine function; <= 3 named at level 2.",
 }
@@ -302,7 +302,7 @@ def judge(ctx, sig, args, kwargs, preset, call, tag):
         ctx.cover("varkw-leftover")
 
 
-def all_shapes(ctx, pool, max_args):
+def all_shapes(ctx, pool, max_args, falsy_pass=True):
     """Every call shape (number of positionals x keyword subset) with fresh symbolic values; the keyword subsets a
     second time with the values None / 0 / '' (a caller's falsy value is still the caller's value)."""
     for nargs in range(max_args + 1):
@@ -310,7 +310,7 @@ def all_shapes(ctx, pool, max_args):
             args = tuple(ctx.sym_int(f"a{i}@{nargs}.{mask}") for i in range(nargs))
             kwargs = {name: ctx.sym_int(f"k.{name}@{nargs}.{mask}") for b, name in enumerate(pool) if mask >> b & 1}
             yield args, kwargs
-            if mask:
+            if mask and falsy_pass:
                 falsy = [None, 0, ""]
                 yield args, {name: falsy[b % 3] for b, name in enumerate(pool) if mask >> b & 1}
 
@@ -392,7 +392,7 @@ def run_l2(ctx, params):
             sm.activate_initial_state()
         sm.seen = []
     tag = f"L2:{engine}"
-    for args, ukw in all_shapes(ctx, KW_POOL_L2, 2):
+    for args, ukw in all_shapes(ctx, KW_POOL_L2, 2, falsy_pass=False):
         with ctx.notracing():
             sm.current_state_value = "a"
             del sm.seen[:]
@@ -401,7 +401,7 @@ def run_l2(ctx, params):
 
 
 def l2_one(ctx, sm, sig, args, ukw, tag):
-    if "source" in ukw:
+    if "source" in ukw or "machine" in ukw or "model" in ukw:
         ctx.cover("reserved-user-kw-filtered")
     user = {k: v for k, v in ukw.items() if k not in RESERVED}
 
